@@ -14,6 +14,7 @@ import (
 	"go/token"
 	"go/types"
 	"hash/crc32"
+	"os"
 	"sort"
 
 	"golang.org/x/tools/go/ssa"
@@ -234,6 +235,10 @@ func (in *Interp) globalCell(g *ssa.Global) *cell {
 	if in.gcells[g] == nil {
 		if !in.tolerant {
 			if ic := in.C.initialCell(g); ic != nil {
+				in.gcells[g] = ic
+				return ic
+			}
+			if ic := in.C.initialKeys(g); ic != nil {
 				in.gcells[g] = ic
 				return ic
 			}
@@ -578,6 +583,9 @@ func (in *Interp) call(fn *ssa.Function, args []aval, depth int) (rets []aval, p
 
 // callFV: call of a closure, fvs are the values bound to its free variables.
 func (in *Interp) callFV(fn *ssa.Function, args []aval, fvs []aval, depth int) (rets []aval, panicked, ok bool) {
+	if os.Getenv("XZV_DEBUG_CE") == "2" {
+		fmt.Fprintf(os.Stderr, "%*sCE call %s %v\n", depth*2, "", fn, args)
+	}
 	if depth > 8 || fn.Blocks == nil {
 		in.fail("call depth exceeded or external function " + fn.String())
 		return nil, false, false
@@ -864,6 +872,15 @@ func (in *Interp) callFV(fn *ssa.Function, args []aval, fvs []aval, depth int) (
 				c := in.get(fr, x.Cond)
 				bv, ok := c.Bool()
 				if !ok {
+					if os.Getenv("XZV_DEBUG_CE") != "" {
+						fmt.Fprintf(os.Stderr, "CE undecided branch in %s: cond %s = %v\n", fn, x.Cond, c)
+						if bo, isB := x.Cond.(*ssa.BinOp); isB {
+							fmt.Fprintf(os.Stderr, "   %s = %+v ; %s = %+v\n", bo.X, in.get(fr, bo.X), bo.Y, in.get(fr, bo.Y))
+						}
+						for i, p := range fn.Params {
+							fmt.Fprintf(os.Stderr, "   param %d %s = %+v\n", i, p.Name(), in.get(fr, p))
+						}
+					}
 					in.fail("undecided branch in " + fn.Name() + " at " + in.C.InstrPos(x))
 					return nil, false, false
 				}
@@ -961,6 +978,9 @@ func (in *Interp) doCall(fr *frame, x *ssa.Call, depth int) (res aval, panicked,
 			return aval{k: kSlice, arr: arr, lo: 0, hi: n + m, typ: x.Type()}, false, true
 		case "copy":
 			dst, src := in.get(fr, cc.Args[0]), in.get(fr, cc.Args[1])
+			if _, isSl := cc.Args[1].Type().Underlying().(*types.Slice); isSl && (dst.k == kNil || src.k == kNil) && (dst.k == kNil || dst.k == kSlice) && (src.k == kNil || src.k == kSlice) {
+				return aInt(0, x.Type()), false, true // a nil slice has no elements to copy to or from
+			}
 			if dst.k == kSlice && src.k == kSlice {
 				n := dst.hi - dst.lo
 				if m := src.hi - src.lo; m < n {
@@ -1143,7 +1163,7 @@ func fieldIndex(t types.Type, name string) int {
 		return -1
 	}
 	for i := 0; i < st.NumFields(); i++ {
-		if st.Field(i).Name() == name {
+		if refNameOf(st.Field(i)) == name {
 			return i
 		}
 	}
